@@ -51,6 +51,52 @@ def json_text(n):
     return ' ; '.join(out)
 
 
+def resolve_cond(C, f, cond, depth=2):
+    """Inline a trivial predicate helper call, or rebuild the condition from a flag variable
+    (int a = A; if(!a && G) a = B;  ==>  A || (G && B))."""
+    c = strip(cond)
+    if depth <= 0 or not isinstance(c, dict):
+        return cond
+    if c.get('kind') == 'CallExpr':
+        g = C.funcs.get(S(c['inner'][0]))
+        if g is not None:
+            stmts = [x for x in g.body.get('inner', []) if x.get('kind') != 'NullStmt']
+            if len(stmts) == 1 and stmts[0].get('kind') == 'ReturnStmt' and stmts[0].get('inner'):
+                amap = dict(zip([p for p, t in g.params], c['inner'][1:]))
+
+                def sub(n):
+                    if not isinstance(n, dict):
+                        return n
+                    n0 = strip(n)
+                    if n0.get('kind') == 'DeclRefExpr' and n0['referencedDecl'].get('name') in amap:
+                        return dict(kind='ParenExpr', inner=[amap[n0['referencedDecl']['name']]])
+                    if not n.get('inner'):
+                        return n
+                    m = dict(n)
+                    m['inner'] = [sub(x) for x in n['inner']]
+                    return m
+                return resolve_cond(C, f, sub(stmts[0]['inner'][0]), depth - 1)
+    if c.get('kind') == 'DeclRefExpr':
+        v = c['referencedDecl'].get('name')
+        defs = [a for a in f.assigns if a['lhs'] == v and a['rhs'] is not None and a['op'] == '=' and not a.get('forinit')]
+        if defs and v in f.locals:
+            expr = defs[0]['rhs']
+            base_guards = defs[0]['guards']
+            for d in defs[1:]:
+                extra = [g for g in d['guards'][len(base_guards):]]
+                if ('!' + v) not in [g.replace(' ', '') for g in extra]:
+                    return cond
+                conj = d['rhs']
+                others = [g for g in extra if g.replace(' ', '') != '!' + v]
+                for gt in reversed(others):
+                    if getattr(gt, 'node', None) is None:
+                        return cond
+                    conj = dict(kind='BinaryOperator', opcode='&&', inner=[gt.as_node(), conj])
+                expr = dict(kind='BinaryOperator', opcode='||', inner=[expr, conj])
+            return expr
+    return cond
+
+
 def cond_shape(cond):
     """Normalise the acceptance condition to a dict describing its shape."""
     c = strip(cond)
@@ -145,7 +191,7 @@ def rules(ctx):
     # rand_seed branches
     rs = C.func('rand_seed')
     seeded = [c for c in rs.calls if c['callee'] == 'pcg32_srandom_r']
-    ok = any('!seed<0' in ''.join(c['guards']).replace(' ', '') and 'seed' in c['argtxt'][1] and 'time' not in ''.join(c['argtxt'])
+    ok = any(any(g.replace(' ', '') in ('seed>=0', '!seed<0', '0<=seed') for g in c['guards']) and 'seed' in c['argtxt'][1] and 'time' not in ''.join(c['argtxt'])
              and 'rng' not in c['argtxt'][2] for c in seeded)
     ctx.inst('R12.1', (rs.unit, 'rand_seed'), 'seeded branch', ok,
              "with seed >= 0 the state and stream depend only on the seed" if ok else
@@ -236,8 +282,9 @@ def rules(ctx):
         if acc is None:
             ctx.inst('R12.3', (f.unit, sname), 'acceptance test', False, "no `if (...) state[i] *= -1` found: flips are unconditional or missing")
             continue
-        d = cond_shape(acc['cond'])
-        ctx.inst('R12.3', (f.unit, sname), 'if(%s)' % unparen(S(acc['cond'])), d['ok'],
+        rc = resolve_cond(C, f, acc['cond'])
+        d = cond_shape(rc)
+        ctx.inst('R12.3', (f.unit, sname), 'if(%s)' % unparen(S(rc)), d['ok'],
                  "accepts iff dE %s 0 or (T > 0 and u < exp(-dE/T))" % d.get('det_op') if d['ok'] else d['why'])
         norms[sname] = d.get('norm')
         # every division by T anywhere in the function is under T > 0
